@@ -524,13 +524,13 @@ func c27RunCase(base *rt.Ledger, old *c27Contract, muts []c27Mut, vm bool, count
     let xs = a.storage.copy<[{C.I}]>(from: /storage/is)!
     assert(xs[0].id() == 2, message: "interface-typed element unusable")
 `)
-	for _, f := range old.SFields {
+	for i, f := range old.SFields {
 		if f.Type != "{I}" {
 			continue
 		}
 		for _, g := range nw.SFields {
 			if g.Name == f.Name {
-				fmt.Fprintf(&b, "    let h = a.storage.copy<C.S>(from: /storage/s)!\n    assert((h.%s as AnyStruct) as? {C.I} != nil, message: \"interface-typed field no longer casts to {I}\")\n", g.Name)
+				fmt.Fprintf(&b, "    let h%d = a.storage.copy<C.S>(from: /storage/s)!\n    assert((h%d.%s as AnyStruct) as? {C.I} != nil, message: \"interface-typed field no longer casts to {I}\")\n", i, i, g.Name)
 			}
 		}
 	}
